@@ -5,7 +5,7 @@
     source are regenerated into Gen/FsWalk_gen.v on every run and the premises [backend_keys_ok], [walk_ok] (and
     the chain parameters) are discharged for them by kernel-checked instance obligations in checks/c19.py. *)
 From Coq Require Import List NArith Bool Permutation.
-From SV Require Import SM.FsChain SM.FsChainProofs SM.FsChainRel SM.FsChainWitness SM.FsChainRaw SM.FsChainCompose SM.FsChainComplete SM.FsChainNorm.
+From SV Require Import SM.FsChain SM.FsChainProofs SM.FsChainRel SM.FsChainWitness SM.FsChainRaw SM.FsChainCompose SM.FsChainComplete SM.FsChainNorm SM.FsChainForms SM.FsChainFormsProofs SM.FsChainWhole SM.FsChainWholeProofs SM.FsChainRead SM.FsChainReadProofs SM.FsChainMixed SM.FsChainMixedProofs.
 Import ListNotations.
 Open Scope N_scope.
 
@@ -343,3 +343,177 @@ Theorem c19_chain_get_variant : forall ms q q',
   Forall sound_member ms -> clean_name q = true -> clean_name q' = true -> nkey q = nkey q' ->
   chain_get ms q = chain_get ms q'.
 Proof. exact chain_get_variant. Qed.
+
+(** ** Round 3: every public lookup form; the bytes handed out. *)
+
+(** [name in chain] ([_file_exists]): inherited from [FileSystem] it tries [_get_file]; an override that loops over the
+    members, joins the caller's name with each member's own prefix (slashes converted or not, the join skipped for
+    an empty prefix or not) and asks the member's own [_file_exists] answers exactly when [chain[name]] finds a file
+    - for every chain: any ordering, restricted members that miss before members that hit.  [open_bin(name)],
+    [open_str(name)], [chain[name]] and [iter(chain)] are only accepted by the translator as delegations to
+    [_get_file] / [walk_folder('')] ([chain_open]). *)
+Theorem c19_chain_exists_agrees : forall em ms q,
+  exists_mode_ok em = true -> Forall xmember_ok ms ->
+  chain_exists em ms q = is_some (chain_get (map x_base ms) q).
+Proof. exact chain_exists_agrees. Qed.
+(** Members built from backends of today's form satisfy the premise. *)
+Theorem c19_chain_exists_agrees_backends : forall em ms q,
+  exists_mode_ok em = true ->
+  Forall (fun m => exists b fs p, m = xmember_of b fs p /\ backend_keys_norm b = true /\ clean_fs fs = true) ms ->
+  chain_exists em ms q = is_some (chain_get (map x_base ms) q)
+  /\ is_some (chain_open (map x_base ms) q) = is_some (chain_get (map x_base ms) q).
+Proof. exact chain_exists_agrees_backends. Qed.
+(** A loop that re-assigns the name it joins (seeded c19_3) asks the members after a restricted one for the wrong
+    name: [chain["x"]] finds the file, ["x" in chain] says no. *)
+Theorem c19_chain_exists_carried_name_refuted :
+  exists_mode_ok (ExLoop true true [OSlash]) = false
+  /\ chain_get (map x_base carry_witness) [120] = Some ([120], [1])
+  /\ chain_exists (ExLoop true true [OSlash]) carry_witness [120] = false
+  /\ chain_exists (ExLoop false true [OSlash]) carry_witness [120] = true
+  /\ chain_exists ExViaGet carry_witness [120] = true
+  /\ Forall xmember_ok carry_witness.
+Proof. exact chain_exists_carried_refuted. Qed.
+
+(** "Return the same bytes": what the VPK backend's [open_bin]/[open_str] read is an expression over the [FileInfo]
+    (translated from the source).  One recognised as whole ([FileInfo.read()], or the preload only under a test that
+    there is no rest) yields the stored bytes for every split between preload and rest and for both homes of the rest:
+    preload only, directory tail, numbered archive, single-file VPK ... *)
+Theorem c19_vpk_content_whole_all_placements : forall c limit in_dir data,
+  cexpr_whole false c = true -> ceval c (vf_place limit in_dir data) = data.
+Proof. exact ceval_whole_all_placements. Qed.
+(** ... so the VPK backend returns, for every query string, the bytes every other backend of today's form returns. *)
+Theorem c19_vpk_open_same_bytes : forall c limit in_dir b1 b2 fs q,
+  cexpr_whole false c = true -> backend_keys_norm b1 = true -> backend_keys_norm b2 = true -> clean_fs fs = true ->
+  open_bytes c limit in_dir b1 fs q = option_map snd (open_ b2 fs q)
+  /\ open_bytes c limit in_dir b1 fs q = option_map snd (lookup b2 fs q).
+Proof. exact open_bytes_same. Qed.
+(** Reading the preload alone whenever the file lives in the directory file (seeded c19_4) drops the directory tail. *)
+Theorem c19_vpk_preload_shortcut_refuted :
+  let c := CIfDir CPreload CRead in
+  cexpr_whole false c = false
+  /\ ceval c (vf_place 2 true [1; 2; 3]) = [1; 2]
+  /\ ceval c (vf_place 2 false [1; 2; 3]) = [1; 2; 3]
+  /\ ceval c (vf_place 3 true [1; 2; 3]) = [1; 2; 3]
+  /\ ceval CRead (vf_place 2 true [1; 2; 3]) = [1; 2; 3]
+  /\ cexpr_whole false (CIfNoTail CPreload CRead) = true
+  /\ open_bytes c 2 true fixed_zip [([120], [1; 2; 3])] [120] = Some [1; 2]
+  /\ option_map snd (open_ fixed_zip [([120], [1; 2; 3])] [120]) = Some [1; 2; 3].
+Proof. exact ceval_preload_shortcut_refuted. Qed.
+
+(** ** Round 3: the chain sentence of the property as one statement over members of any kind. *)
+
+(** [chain_spec] is written from the property text alone: the members in priority order as (files, subfolder); the
+    first one whose files contain subfolder/name - up to letter case, either slash, redundant segments - gives the
+    content.  Every public lookup form of a chain is that function: the File of [chain[q]] / [_get_file(q)], what
+    [open_bin(q)] / [open_str(q)] resolve, the answer of [q in chain] / [_file_exists(q)] in every sound shape, and the
+    bytes read from the handle - for every query string, every ordering of members of whatever backend kind (VPK
+    members keeping the bytes in any placement, read through an expression recognised as whole), restricted members
+    that miss before members that hit. *)
+Theorem c19_chain_every_form_spec : forall em ms q,
+  exists_mode_ok em = true -> Forall kmember_ok ms ->
+  chain_get (map k_member ms) q = chain_spec (map k_spec ms) q
+  /\ chain_open (map k_member ms) q = chain_spec (map k_spec ms) q
+  /\ chain_exists em (map k_xmember ms) q = is_some (chain_spec (map k_spec ms) q)
+  /\ chain_read ms q = option_map snd (chain_spec (map k_spec ms) q).
+Proof. exact chain_every_form_spec. Qed.
+(** Hence "all filesystem backends resolve names alike" holds through chains: two chains whose members hold the same
+    files under the same subfolders in the same order answer every lookup form alike, whatever kind each member is
+    and wherever a VPK member keeps the bytes. *)
+Theorem c19_chain_backend_kind_unobservable : forall em1 em2 ms1 ms2 q,
+  exists_mode_ok em1 = true -> exists_mode_ok em2 = true ->
+  Forall kmember_ok ms1 -> Forall kmember_ok ms2 -> map k_spec ms1 = map k_spec ms2 ->
+  chain_get (map k_member ms1) q = chain_get (map k_member ms2) q
+  /\ chain_exists em1 (map k_xmember ms1) q = chain_exists em2 (map k_xmember ms2) q
+  /\ chain_read ms1 q = chain_read ms2 q.
+Proof. exact chain_backend_kind_unobservable. Qed.
+(** The specification's two laws: the first member that has the name wins; a member that misses changes nothing. *)
+Theorem c19_chain_spec_first : forall fs p r q e,
+  spec_lookup fs (normpath (slash (pjoin p q))) = Some e -> chain_spec ((fs, p) :: r) q = Some e.
+Proof. exact chain_spec_first. Qed.
+Theorem c19_chain_spec_skip : forall fs p r q,
+  spec_lookup fs (normpath (slash (pjoin p q))) = None -> chain_spec ((fs, p) :: r) q = chain_spec r q.
+Proof. exact chain_spec_skip. Qed.
+(** With the preload shortcut of seeded c19_4 the kind of a member is observable through a chain (the hypotheses of
+    the theorem above are satisfiable: both witness chains without the shortcut are [kmember_ok]). *)
+Theorem c19_chain_read_preload_shortcut_refuted :
+  map k_spec [kw_zip; kw_mem] = map k_spec [kw_zip; kw_vpk (CIfDir CPreload CRead)]
+  /\ chain_read [kw_zip; kw_mem] [120] = Some [1; 2; 3]
+  /\ chain_read [kw_zip; kw_vpk (CIfDir CPreload CRead)] [120] = Some [1; 2]
+  /\ chain_read [kw_zip; kw_vpk CRead] [120] = Some [1; 2; 3]
+  /\ Forall kmember_ok [kw_zip; kw_mem] /\ Forall kmember_ok [kw_zip; kw_vpk CRead].
+Proof. exact chain_read_preload_shortcut_refuted. Qed.
+
+(** The walk of such a chain: every entry [walk_folder(folder)] lists (empty or clean folder and subfolders) is the
+    specification's answer for the listed name - the name can be looked up in every form and reading it yields the
+    listed file's bytes, i.e. those of the first member that has the name ... *)
+Theorem c19_chain_walk_every_entry_spec : forall em dops ms folder x,
+  exists_mode_ok em = true -> dedup_ops_ok dops = true -> Forall kmember_walk_ok ms -> okp folder ->
+  In x (chain_walk RelDropSegs dops (map k_member ms) folder) ->
+  chain_spec (map k_spec ms) (fst x) = Some (snd x)
+  /\ chain_get (map k_member ms) (fst x) = Some (snd x)
+  /\ chain_exists em (map k_xmember ms) (fst x) = true
+  /\ chain_read ms (fst x) = Some (snd (snd x)).
+Proof. exact chain_walk_every_entry_spec. Qed.
+(** ... and whatever the specification serves under a clean name inside the folder is listed (up to letter case) with
+    that very file; [iter(chain)] = [walk_folder('')] lists every clean name the chain serves. *)
+Theorem c19_chain_walk_lists_spec : forall dops ms folder q f,
+  dedup_ops_ok dops = true -> Forall kmember_walk_ok ms -> okp folder ->
+  clean_name q = true -> path_prefix (nkey folder) (nkey q) ->
+  chain_spec (map k_spec ms) q = Some f ->
+  exists x, In x (chain_walk RelDropSegs dops (map k_member ms) folder) /\ nkey (fst x) = nkey q /\ snd x = f.
+Proof. exact chain_walk_lists_spec. Qed.
+Theorem c19_chain_iter_lists_spec : forall dops ms q f,
+  dedup_ops_ok dops = true -> Forall kmember_walk_ok ms -> clean_name q = true ->
+  chain_spec (map k_spec ms) q = Some f ->
+  exists x, In x (chain_walk RelDropSegs dops (map k_member ms) []) /\ nkey (fst x) = nkey q /\ snd x = f.
+Proof. exact chain_iter_lists_spec. Qed.
+
+(** ** Round 3: the container's reader [FileInfo.read()] as translated from vpk.py. *)
+
+(** A reader recognised as whole ([rexpr_whole]: the preload alone only where there is no rest; otherwise the preload
+    followed by exactly the [arch_len] bytes at [offset] of the home the rest lives in - displacements 0 and 0, the
+    directory block iff [arch_index is None]) returns the stored bytes for every split between preload and rest, both
+    homes, and wherever in its home the rest lies ([before], [after] arbitrary). *)
+Theorem c19_vpk_reader_whole_all_placements : forall e before after limit in_dir data,
+  rexpr_whole None false e = true -> reval e (rfile_of before after limit in_dir data) = data.
+Proof. exact reader_whole_all_placements. Qed.
+(** The VPK backend's content expression evaluated over the translated reader: whole over whole hands out the stored
+    bytes (so [c19_vpk_open_same_bytes], which takes [file.read()] as "preload ++ rest", applies to today's source). *)
+Theorem c19_vpk_open_through_reader : forall rd c before after limit in_dir data,
+  rexpr_whole None false rd = true -> cexpr_whole false c = true ->
+  ceval_r rd c (rfile_of before after limit in_dir data) = data.
+Proof. exact open_through_reader_all_placements. Qed.
+(** A reader that slices the directory block one byte short is not recognised, and loses the last byte of a file whose
+    rest is kept there - also through a backend that opens with [file.read()]. *)
+Theorem c19_vpk_reader_short_refuted :
+  rexpr_whole None false reader_today = true /\ rexpr_whole None false reader_short = false
+  /\ reval reader_short (rfile_of [9] [8] 1 true [1; 2; 3]) = [1; 2]
+  /\ reval reader_today (rfile_of [9] [8] 1 true [1; 2; 3]) = [1; 2; 3]
+  /\ ceval_r reader_short CRead (rfile_of [9] [8] 1 true [1; 2; 3]) = [1; 2].
+Proof.
+  split; [exact reader_today_whole|]. destruct reader_short_refuted as [A [B [C _]]]. destruct open_through_short_reader_refuted as [D _].
+  repeat split; assumption.
+Qed.
+
+(** ** Round 3: chains that also contain the directory backend (exact-case names). *)
+
+(** Members are folding backends of any kind or directory backends ([MRaw ops fs p], [ops] = what reaches
+    [_resolve_path]).  On every query that is exact for the directory members - for each of them the name it is asked
+    for (subfolder joined with the query, slashes converted, redundant parts removed) is a stored name of it or matches
+    none of its names even up to case - the chain's lookup is the specification [chain_spec] ... *)
+Theorem c19_chain_with_directory_members_spec : forall ms q,
+  Forall (mmember_ok q) ms -> mchain_get ms q = chain_spec (map m_spec ms) q.
+Proof. exact mchain_get_spec. Qed.
+(** ... so a directory member and a folding member holding the same files are interchangeable on such queries ... *)
+Theorem c19_chain_directory_kind_unobservable : forall ms1 ms2 q,
+  Forall (mmember_ok q) ms1 -> Forall (mmember_ok q) ms2 -> map m_spec ms1 = map m_spec ms2 ->
+  mchain_get ms1 q = mchain_get ms2 q.
+Proof. exact mchain_kind_unobservable. Qed.
+(** ... and the premise is needed: asked for "a" a directory member holding "A" misses where a folding member hits
+    ("for exact-case names" in the property text); asked for "A" both serve the file. *)
+Theorem c19_chain_directory_case_refuted :
+  map m_spec mixed_raw = map m_spec mixed_fold
+  /\ mchain_get mixed_raw [97] = None /\ mchain_get mixed_fold [97] = Some ([65], [1])
+  /\ mchain_get mixed_raw [65] = Some ([65], [1]) /\ mchain_get mixed_fold [65] = Some ([65], [1])
+  /\ Forall (mmember_ok [65]) mixed_raw.
+Proof. exact mchain_case_needs_exact_refuted. Qed.
